@@ -125,7 +125,9 @@ def o_history(case):
     cls = set()
     live_stream = io.BytesIO()
     lv = case.get("lv", 1)
-    live = RTCMReader(live_stream, quitonerror=case.get("qoe", 1), validate=lv)
+    lp = case.get("lparsed", True)
+    live = RTCMReader(live_stream, quitonerror=case.get("qoe", 1), validate=lv, parsed=lp)
+    kept = []  # one iterator object obtained once and kept for the whole history (via "kept-iter")
     live_expect = []
     if table_digest() != BASELINE:
         raise Fail("tables-modified", "definition / lookup tables differ from their import-time digest before the history starts")
@@ -143,7 +145,11 @@ def o_history(case):
             # ask the long-lived reader for more when its stream is at its end: nothing to report, and it must not change
             # what the reader delivers once more bytes arrive
             try:
-                if op.get("via") == "next":
+                if op.get("via") == "kept-iter":
+                    if not kept:
+                        kept.append(iter(live))
+                    next(kept[0])
+                elif op.get("via") in ("next", "iter-next", "for-break"):
                     next(live)
                 else:
                     live.read()
@@ -183,6 +189,15 @@ def o_history(case):
                         raw, parsed = next(live)
                     except StopIteration:
                         raw, parsed = None, None
+                elif op.get("via") == "kept-iter":
+                    # the application keeps the object iter() gave it and calls next() on it whenever it expects data,
+                    # also after it has raised StopIteration at an earlier pause
+                    if not kept:
+                        kept.append(iter(live))
+                    try:
+                        raw, parsed = next(kept[0])
+                    except StopIteration:
+                        raw, parsed = None, None
                 elif op.get("via") == "iter-next":
                     # a new iter() on the same reader every time (what each `for` statement does)
                     try:
@@ -203,8 +218,8 @@ def o_history(case):
             except Exception as e:  # pylint: disable=broad-except
                 raw = None
                 res = ("exc", type(e).__name__)
-            fresh = list(RTCMReader(io.BytesIO(frame), quitonerror=case.get("qoe", 1), validate=lv))
-            fres = ("ok", pub(fresh[0][1])) if fresh else ("none", None)
+            fresh = list(RTCMReader(io.BytesIO(frame), quitonerror=case.get("qoe", 1), validate=lv, parsed=lp))
+            fres = ("ok", pub(fresh[0][1])) if fresh and fresh[0][1] is not None else ("none", None)
             fraw = fresh[0][0] if fresh else None
             if (res, raw) != (fres, fraw):
                 what = f"long-lived reader {res[0]}{'' if res[0] != 'exc' else ':' + res[1]}, fresh reader over the same frame {fres[0]}"
@@ -270,7 +285,7 @@ def s_history(draw, tier):
             "how": st.sampled_from(["msg", "msg", "static", "reader", "live", "live", "drain", "static-badcrc"]),
             "pre": st.one_of(st.none(), st.none(), junk),
             "bt": st.sampled_from([0, 0, 1]),
-            "via": st.sampled_from(["read", "next", "iter-next", "for-break"]),
+            "via": st.sampled_from(["read", "next", "iter-next", "for-break", "kept-iter", "kept-iter"]),
             "ubx": st.one_of(st.none(), st.none(), st.none(), st.tuples(st.sampled_from([1, 8, 40, 200]), st.integers(0, 300)).map(list)),
             "lm": st.sampled_from([1, 1, 2]),
             "mut": st.sampled_from([None, None, None, "truncate", "flip", "splice", "ones-from"]),
@@ -285,7 +300,7 @@ def s_history(draw, tier):
     # immediate repeats: the same operation on the same bytes twice in a row (state keyed on "the last frame")
     for k in sorted(set(draw(st.lists(st.integers(0, len(ops) - 1), min_size=0, max_size=6))), reverse=True):
         ops.insert(k + 1, dict(ops[k]))
-    return {"items": items, "ops": ops, "qoe": draw(st.sampled_from([0, 1])), "lv": draw(st.sampled_from([0, 1]))}
+    return {"items": items, "ops": ops, "qoe": draw(st.sampled_from([0, 1])), "lv": draw(st.sampled_from([0, 1])), "lparsed": draw(st.sampled_from([True, True, False]))}
 
 
 MSM_IDS = [str(1070 + 10 * c + l) for c in range(7) for l in range(1, 8)]
